@@ -179,6 +179,89 @@ theorem rebase_agrees_on_streams (mw : List α) (a c : RVal α) (b : BArg) (n : 
         simp only [react, List.getElem_zipWith, List.getElem_map, hq, hnm, hnr, har]
         field_simp
 
+/-- applying two same-basis reactions in parallel to a stream is adding their separate effects on that stream -/
+theorem applyStream_parallel_two (mwf : List α) (β : Basis) (a b : RVal α) (n : List α)
+    (hmw : ∀ m ∈ mwf, m ≠ 0) (hlm : mwf.length = n.length)
+    (hla : a.v.length = n.length) (hlb : b.v.length = n.length) :
+    applyStream mwf β (parallel [(a.v, a.ridx, a.x), (b.v, b.ridx, b.x)]) n =
+      List.zipWith (· + ·) (applyStream mwf β (react a.v a.ridx a.x) n)
+        (List.zipWith (· - ·) (applyStream mwf β (react b.v b.ridx b.x) n) n) := by
+  cases β
+  · simp only [applyStream]
+    apply List.ext_getElem
+    · simp [react, parallel, hla, hlb]
+    · intro i h1 h2
+      simp only [react, parallel, List.foldl_cons, List.foldl_nil, List.getElem_zipWith]
+      ring
+  · simp only [applyStream]
+    apply List.ext_getElem
+    · simp [react, parallel, hla, hlb, hlm]
+    · intro i h1 h2
+      have him : i < mwf.length := by simp [react, parallel, hla, hlb, hlm] at h1; omega
+      have hmi : mwf[i] ≠ 0 := hmw _ (List.getElem_mem him)
+      simp only [react, parallel, List.foldl_cons, List.foldl_nil, List.getElem_zipWith]
+      field_simp
+      ring
+
+/-- **add_is_parallel_on_streams** (operands on any bases; this is also the case of a `Reaction` combined with a
+`ReactionItem` of a set kept on the other basis).  `b` is first re-based to `a`'s basis; the sum, applied to the
+molar flows of a stream, changes them by what `a` changes plus what `b` — on its own basis — changes. -/
+theorem add_is_parallel_on_streams (mw : List α) (a b c : RVal α) (n : List α)
+    (hph : a.ph = b.ph) (hla : a.v.length = n.length) (hlb : b.v.length = n.length)
+    (hmw : ∀ m ∈ mwFlat mw a.ph, m ≠ 0) (hlm : (mwFlat mw a.ph).length = n.length)
+    (ha : a.v.getD a.ridx 0 = -1) (hb : b.v.getD b.ridx 0 = -1) (hx : a.x + b.x ≠ 0)
+    (h : a.addSub mw false (some b) = .ok c) :
+    applyStream (mwFlat mw c.ph) c.basis (react c.v c.ridx c.x) n =
+      List.zipWith (· + ·) (applyStream (mwFlat mw a.ph) a.basis (react a.v a.ridx a.x) n)
+        (List.zipWith (· - ·) (applyStream (mwFlat mw b.ph) b.basis (react b.v b.ridx b.x) n) n) := by
+  obtain ⟨hf1, hf2, hf3⟩ := addSub_fields mw false a (some b) c h
+  have hlbm : b.v.length = (mwFlat mw b.ph).length := by rw [← hph, hlm, hlb]
+  cases hre : b.hasReaction
+  · -- nothing is added: `b` converts nothing
+    rw [addSub_noReaction mw false a b hre] at h
+    have := Except.ok.inj h; subst this
+    have hbx := hasReaction_false_x b b.ridx hb hre
+    have hid : applyStream (mwFlat mw b.ph) b.basis (react b.v b.ridx b.x) n = n := by
+      rw [hbx, ← hph]
+      cases b.basis
+      · simp only [applyStream]
+        apply List.ext_getElem (by simp [react, hlb])
+        intro i h1 h2; simp [react]
+      · simp only [applyStream]
+        apply List.ext_getElem (by simp [react, hlb, hlm])
+        intro i h1 h2
+        have him : i < (mwFlat mw a.ph).length := by rw [hlm]; exact h2
+        have hmi : (mwFlat mw a.ph)[i] ≠ 0 := hmw _ (List.getElem_mem him)
+        simp only [react, List.getElem_zipWith]
+        field_simp
+        ring
+    rw [hid]
+    apply List.ext_getElem
+    · cases a.basis <;> simp [applyStream, react, hla, hlm]
+    · intro i h1 h2; simp
+  · obtain ⟨b', hb', hph', hr', v, hv, hc⟩ := addSub_some_inv mw false a b c hre h
+    obtain ⟨g1, g2, g3, g4, g5, g6⟩ := copyB_ofBasis mw b b' a.basis hb hlbm hb'
+    -- the same sum written with the re-based operand
+    have hre' : b'.hasReaction = true := by
+      have hz : allZero b'.v = false := allZero_false_of_getD_ne b'.v b'.ridx (by rw [g6]; simp)
+      have hbx : b.x ≠ 0 := by intro e; simp [RVal.hasReaction, e] at hre
+      simp [RVal.hasReaction, hz, g1, hbx]
+    have h' : a.addSub mw false (some b') = .ok c := by
+      unfold RVal.addSub
+      simp only [hre', Bool.not_true, Bool.false_eq_true, if_false,
+        compat_same mw a b' g4 hph' hr', hv, hc]
+    have hlb' : b'.v.length = n.length := by rw [g5, hlb]
+    have hpar : ∀ m : List α, m.length = n.length →
+        react c.v c.ridx c.x m = parallel [(a.v, a.ridx, a.x), (b'.v, b'.ridx, b'.x)] m := fun m hm =>
+      add_is_parallel mw a b' c m g4 hph' hr' (by rw [hla, hm]) (by rw [hlb', hm]) ha g6 (by rw [g1]; exact hx) h'
+    have hagree := rebase_agrees_on_streams mw b b' (BArg.ofBasis a.basis) n
+      (by rw [← hph]; exact hmw) hlb (by rw [← hph]; exact hlm) hb hb'
+    rw [← hagree, hf2, hf3, g4, g3, ← hph]
+    rw [← applyStream_parallel_two (mwFlat mw a.ph) a.basis a b' n hmw hlm hla hlb']
+    cases a.basis
+    · simp only [applyStream]; exact hpar n rfl
+    · simp only [applyStream]; rw [hpar _ (by simp [hlm])]
+
 /-! ## Operands are spared, results are fresh -/
 
 /-- **operands_unchanged.**  Every operation that is not an in-place form (`+ - * / neg copy backwards`,
@@ -189,7 +272,7 @@ theorem operands_unchanged (s s' : Store α) (op : Op α) (k : Nat) (hop : op.in
   cases hp : s.pureOp op with
   | some r =>
     obtain ⟨a, _, hs, _⟩ := step_pure_ok s s' op k r hp h
-    rw [hs]; exact newRxn_extends s a
+    rw [hs]; exact newRxn_extends s _ a
   | none =>
     cases op <;> simp [Op.inPlace] at hop <;> simp [Store.pureOp] at hp
     case mkSet ms =>
@@ -217,9 +300,26 @@ theorem operands_unchanged (s s' : Store α) (op : Op α) (k : Nat) (hop : op.in
       · simp at h
       · split at h; · simp at h
         split at h; · simp at h
+        split at h; · simp at h
         simp only [Except.ok.injEq, Prod.mk.injEq] at h
         rw [← h.1]
         exact ⟨List.prefix_append _ _, List.prefix_append _ _, List.prefix_append _ _, rfl, rfl⟩
+    case setCopy sid b =>
+      simp only [Store.step, Store.pureOp, Store.setCopyOp] at h
+      split at h
+      · simp at h
+      · split at h; · simp at h
+        split at h; · simp at h
+        simp only [Except.ok.injEq, Prod.mk.injEq] at h
+        rw [← h.1]
+        exact ⟨List.prefix_append _ _, List.prefix_append _ _, List.prefix_append _ _, rfl, rfl⟩
+    case slice sid i j =>
+      simp only [Store.step, Store.pureOp, Store.sliceOp] at h
+      split at h
+      · simp at h
+      · simp only [Except.ok.injEq, Prod.mk.injEq] at h
+        rw [← h.1]
+        exact ⟨List.prefix_refl _, List.prefix_refl _, List.prefix_append _ _, rfl, rfl⟩
 
 /-- In a well-formed store, a store extension shows every old reaction (and every member of every old set)
 with the value it had: stoichiometry contents, reactant, conversion, basis, phases. -/
@@ -271,18 +371,32 @@ theorem reachable_wf (nchem : Nat) (mw : List α) (ops : List (Op α)) :
     (Store.run ({ nchem := nchem, mw := mw } : Store α) ops).WF :=
   run_wf ops _ (by intro o ho; simp at ho)
 
-/-- **fresh_result.**  The result of an arithmetic operation, `copy`, `backwards` or `reduce` is a new
+/-- the same from a store that also knows alternative property packages -/
+theorem reachable_wf_alts (nchem : Nat) (mw : List α) (alts : List (Pkg α)) (ops : List (Op α)) :
+    (Store.run ({ nchem := nchem, mw := mw, alts := alts } : Store α) ops).WF :=
+  run_wf ops _ (by intro o ho; simp at ho)
+
+/-- **fresh_result.**  The result of an arithmetic operation, `copy`, `backwards`, `reduce` or `set.copy` is a new
 object (its id is the next free one), and every stoichiometry array and X array it holds was allocated
 by this operation. -/
 theorem fresh_result (s s' : Store α) (op : Op α) (k : Nat) (hop : makesFresh s op)
     (h : s.step op = .ok (s', k)) :
     k = s.objs.length ∧ ∃ o, s'.objs = s.objs ++ [o] ∧
       (∀ id ∈ o.arrIds, s.arrs.length ≤ id) ∧ (∀ id ∈ o.xIds, s.xarrs.length ≤ id) := by
-  rcases hop with hp | ⟨sid, order, rfl⟩
+  rcases hop with hp | ⟨sid, order, rfl⟩ | ⟨sid, b, rfl⟩
   · obtain ⟨r, hr⟩ := Option.isSome_iff_exists.mp hp
     obtain ⟨a, _, hs, hk⟩ := step_pure_ok s s' op k r hr h
     refine ⟨hk, _, by rw [hs]; rfl, ?_, ?_⟩ <;> simp [Obj.arrIds, Obj.xIds]
   · simp only [Store.step, Store.pureOp, Store.reduceOp] at h
+    split at h; · simp at h
+    split at h; · simp at h
+    split at h; · simp at h
+    split at h; · simp at h
+    simp only [Except.ok.injEq, Prod.mk.injEq] at h
+    refine ⟨h.2.symm, _, by rw [← h.1], ?_, ?_⟩
+    · intro id hid; simp [Obj.arrIds] at hid; obtain ⟨j, _, rfl⟩ := hid; omega
+    · intro id hid; simp [Obj.xIds] at hid; omega
+  · simp only [Store.step, Store.pureOp, Store.setCopyOp] at h
     split at h; · simp at h
     split at h; · simp at h
     split at h; · simp at h
@@ -345,15 +459,16 @@ theorem inplace_eq_binary_div (s : Store α) (hwf : s.WF) (a : Nat) (k : α) :
 
 /-! ## A reaction item and its set share the conversion -/
 
-/-- `set[i]` is an object that refers to the set's own row array and to cell `i` of the set's X array -/
+/-- `set[i]` is an object that refers to the set's own row array and to cell `i` of the set's X window
+(cell `xoff + i` of the underlying array when the set is a slice `parent[a:b]`) -/
 theorem item_refers_to_set (s s1 : Store α) (sid i k : Nat) (t : RSet) (ht : s.set? sid = .ok t)
     (h : s.step (.item sid i) = .ok (s1, k)) :
-    ∃ r, s1.rxn? k = .ok r ∧ r.x = .shared t.xa i ∧ r.nu = t.rows.getD i 0 ∧ s1.set? sid = .ok t := by
+    ∃ r, s1.rxn? k = .ok r ∧ r.x = .shared t.xa (t.xoff + i) ∧ r.nu = t.rows.getD i 0 ∧ s1.set? sid = .ok t := by
   simp only [Store.step, Store.pureOp, Store.itemOp, ht] at h
   split at h
   · simp only [Except.ok.injEq, Prod.mk.injEq] at h
     obtain ⟨rfl, rfl⟩ := h
-    refine ⟨{ nu := t.rows.getD i 0, ridx := t.ridxs.getD i 0, x := .shared t.xa i, basis := t.basis, ph := t.ph },
+    refine ⟨{ nu := t.rows.getD i 0, ridx := t.ridxs.getD i 0, x := .shared t.xa (t.xoff + i), basis := t.basis, ph := t.ph, pkg := t.pkg },
       rxn?_of_getElem? (by simp), rfl, rfl, ?_⟩
     have := set?_ok ht
     have hlt := (List.getElem?_eq_some_iff.mp this).1
@@ -382,21 +497,41 @@ theorem item_write_seen_by_set (s : Store α) (hwf : s.WF) (k : Nat) (r : Rxn α
 /-- **item_set_shared** (set → item).  Writing `set.X[i]` is read by every item of that set with index `i`. -/
 theorem set_write_seen_by_item (s : Store α) (hwf : s.WF) (sid i : Nat) (t : RSet)
     (ht : s.set? sid = .ok t) (hi : i < t.rows.length) (x : α) :
-    ∃ s2, s.step (.setSetX sid i x) = .ok (s2, sid) ∧ cell s2 t.xa i = x ∧
-      ∀ k r, s.rxn? k = .ok r → r.x = .shared t.xa i → (s2.valOf k).map (·.x) = .ok x := by
+    ∃ s2, s.step (.setSetX sid i x) = .ok (s2, sid) ∧ cell s2 t.xa (t.xoff + i) = x ∧
+      ∀ k r, s.rxn? k = .ok r → r.x = .shared t.xa (t.xoff + i) → (s2.valOf k).map (·.x) = .ok x := by
   obtain ⟨_, h2, h3, _⟩ := set_wf_of_ok hwf ht
-  have h3' : i < (s.xarrs[t.xa]).length := by
+  have h3' : t.xoff + i < (s.xarrs[t.xa]).length := by
     have : (s.xarrs.getD t.xa []).length = (s.xarrs[t.xa]).length := by simp [List.getD, h2]
     omega
-  have hc : cell { s with xarrs := s.xarrs.set t.xa ((s.xarrs.getD t.xa []).set i x) } t.xa i = x := by
+  have hc : cell { s with xarrs := s.xarrs.set t.xa ((s.xarrs.getD t.xa []).set (t.xoff + i) x) } t.xa (t.xoff + i) = x := by
     simp [cell, List.getD, h2, h3']
   refine ⟨_, by simp [Store.step, Store.pureOp, Store.setSetXOp, ht, hi], hc, ?_⟩
   intro k r hr hx
-  have : Store.rxn? { s with xarrs := s.xarrs.set t.xa ((s.xarrs.getD t.xa []).set i x) } k = .ok r := by
+  have : Store.rxn? { s with xarrs := s.xarrs.set t.xa ((s.xarrs.getD t.xa []).set (t.xoff + i) x) } k = .ok r := by
     simpa [Store.rxn?] using hr
   rw [valOf_of_rxn? this]
   simp only [Except.map, Store.val, Store.getX, hx]
   exact congrArg _ hc
+
+/-- the same cell is read by every *set* whose X window covers it: the set itself, the set it was sliced from,
+and any other slice of that set -/
+theorem set_write_seen_by_sets (s : Store α) (hwf : s.WF) (sid i : Nat) (t : RSet)
+    (ht : s.set? sid = .ok t) (hi : i < t.rows.length) (x : α) :
+    ∃ s2, s.step (.setSetX sid i x) = .ok (s2, sid) ∧
+      ∀ sid' t' j, s.set? sid' = .ok t' → t'.xa = t.xa → t'.xoff + j = t.xoff + i → j < t'.rows.length →
+        s2.set? sid' = .ok t' ∧ ((s2.setVals t').map (·.x)).getD j 0 = x := by
+  obtain ⟨s2, hstep, hcell, _⟩ := set_write_seen_by_item s hwf sid i t ht hi x
+  refine ⟨s2, hstep, ?_⟩
+  intro sid' t' j ht' hxa hoff hj
+  have hs2 : s2 = { s with xarrs := s.xarrs.set t.xa ((s.xarrs.getD t.xa []).set (t.xoff + i) x) } := by
+    have := hstep
+    simp only [Store.step, Store.pureOp, Store.setSetXOp, ht, hi, if_true, Except.ok.injEq, Prod.mk.injEq] at this
+    exact this.1.symm
+  refine ⟨by rw [hs2]; simpa [Store.set?] using ht', ?_⟩
+  have hlen : j < ((s2.setVals t').map (·.x)).length := by simp [Store.setVals, hj]
+  rw [getD_of_lt _ _ hlen]
+  simp only [Store.setVals, List.getElem_map, List.getElem_range, hxa, hoff]
+  exact hcell
 
 /-! ## What the in-place forms leave alone -/
 
@@ -511,19 +646,19 @@ theorem results_normalised (s : Store α) (op : Op α) (a : RVal α)
     simp only [bind, Except.bind] at h
     split at h; · simp at h
     rename_i v0 hv0
-    exact (copyB_normal s.mw v0 a b (valOf_normal s hin a0 v0 hv0) h).1
+    exact (copyB_normal _ v0 a b (valOf_normal s hin a0 v0 hv0) h).1
   case add a0 b =>
     simp only [bind, Except.bind] at h
     split at h; · simp at h
     rename_i v0 hv0
     split at h; · simp at h
-    exact addSub_normal s.mw false v0 _ a (valOf_normal s hin a0 v0 hv0) h
+    exact addSub_normal _ false v0 _ a (valOf_normal s hin a0 v0 hv0) h
   case sub a0 b =>
     simp only [bind, Except.bind] at h
     split at h; · simp at h
     rename_i v0 hv0
     split at h; · simp at h
-    exact addSub_normal s.mw true v0 _ a (valOf_normal s hin a0 v0 hv0) h
+    exact addSub_normal _ true v0 _ a (valOf_normal s hin a0 v0 hv0) h
   case mul a0 k =>
     simp only [bind, Except.bind] at h
     split at h; · simp at h
@@ -547,7 +682,7 @@ theorem results_normalised (s : Store α) (op : Op α) (a : RVal α)
   case backwards a0 r x =>
     simp only [bind, Except.bind] at h
     split at h; · simp at h
-    exact backwards_normal s.nchem _ a r x h
+    exact backwards_normal _ _ a r x h
 
 /-- The `basis` setter is the one operation that modifies an existing stoichiometry array: exactly the array
 of its own object (so a set built from that reaction sees the new numbers), nothing else. -/
@@ -580,7 +715,7 @@ theorem applyArr_of_valOf (s : Store α) (k : Nat) (c : RVal α) (n : List α) (
 /-- `c = a + b` executed on objects of the store: calling `c` on a feed gives what `a` and `b` give in
 parallel (equal basis label, phases and reactant; both normalised; `X_a + X_b ≠ 0`). -/
 theorem add_step_is_parallel (s s' : Store α) (a b k : Nat) (ra rb : Rxn α) (n : List α)
-    (hra : s.rxn? a = .ok ra) (hrb : s.rxn? b = .ok rb)
+    (hra : s.rxn? a = .ok ra) (hrb : s.rxn? b = .ok rb) (hpk : s.pkgOf a = s.pkgOf b)
     (hbasis : rb.basis = ra.basis) (hph : ra.ph = rb.ph) (hr : ra.ridx = rb.ridx)
     (hla : (s.val ra).v.length = n.length) (hlb : (s.val rb).v.length = n.length)
     (ha : (s.val ra).v.getD ra.ridx 0 = -1) (hb : (s.val rb).v.getD rb.ridx 0 = -1)
@@ -588,11 +723,45 @@ theorem add_step_is_parallel (s s' : Store α) (a b k : Nat) (ra rb : Rxn α) (n
     (h : s.step (.add a (some b)) = .ok (s', k)) :
     s'.applyArr k n = .ok (parallel [((s.val ra).v, ra.ridx, (s.val ra).x), ((s.val rb).v, rb.ridx, (s.val rb).x)] n) := by
   obtain ⟨c, hc, hs, hk⟩ := step_pure_ok s s' _ k _ rfl h
-  simp only [valOf_of_rxn? hra, Store.optVal, valOf_of_rxn? hrb, bind, Except.bind, pure, Except.pure] at hc
-  have hv : s'.valOf k = .ok c := by rw [hs, hk]; exact newRxn_valOf s c
+  simp only [valOf_of_rxn? hra, optValFor_same hrb hpk, bind, Except.bind, pure, Except.pure] at hc
+  have hv : s'.valOf k = .ok c := by rw [hs, hk]; exact newRxn_valOf s _ c
   rw [applyArr_of_valOf s' k c n hv]
   congr 1
-  exact add_is_parallel s.mw (s.val ra) (s.val rb) c n hbasis hph hr hla hlb ha hb hx hc
+  exact add_is_parallel _ (s.val ra) (s.val rb) c n hbasis hph hr hla hlb ha hb hx hc
+
+theorem applyStr_of_valOf (s : Store α) (k : Nat) (c : RVal α) (n : List α) (h : s.valOf k = .ok c) :
+    s.applyStr k n = .ok (applyStream (mwFlat (s.mwOf (s.pkgOf k)) c.ph) c.basis (react c.v c.ridx c.x) n) := by
+  cases hr : s.rxn? k with
+  | error e => rw [valOf_error hr] at h; exact absurd h (by simp)
+  | ok r =>
+    rw [valOf_of_rxn? hr] at h
+    have := Except.ok.inj h; subst this
+    simp [Store.applyStr, rxn?_ok hr, pkgOf_rxn hr]
+
+/-- `c = a + b` on objects of the store whose bases may differ — in particular a `Reaction` `a` and a
+`ReactionItem` `b` of a set kept on the other basis (`b`'s conversion is then the set's X cell): calling `c` on a
+stream changes the molar flows by what `a` and `b`, each on its own basis, change. -/
+theorem add_step_is_parallel_on_streams (s s' : Store α) (a b k : Nat) (ra rb : Rxn α) (n : List α)
+    (hra : s.rxn? a = .ok ra) (hrb : s.rxn? b = .ok rb) (hpk : s.pkgOf a = s.pkgOf b) (hph : ra.ph = rb.ph)
+    (hla : (s.val ra).v.length = n.length) (hlb : (s.val rb).v.length = n.length)
+    (hmw : ∀ m ∈ mwFlat (s.mwOf (s.pkgOf a)) ra.ph, m ≠ 0)
+    (hlm : (mwFlat (s.mwOf (s.pkgOf a)) ra.ph).length = n.length)
+    (ha : (s.val ra).v.getD ra.ridx 0 = -1) (hb : (s.val rb).v.getD rb.ridx 0 = -1)
+    (hx : (s.val ra).x + (s.val rb).x ≠ 0)
+    (h : s.step (.add a (some b)) = .ok (s', k)) :
+    ∃ out outa outb, s'.applyStr k n = .ok out ∧ s.applyStr a n = .ok outa ∧ s.applyStr b n = .ok outb ∧
+      out = List.zipWith (· + ·) outa (List.zipWith (· - ·) outb n) := by
+  obtain ⟨c, hc, hs, hk⟩ := step_pure_ok s s' _ k _ rfl h
+  simp only [valOf_of_rxn? hra, optValFor_same hrb hpk, bind, Except.bind, pure, Except.pure] at hc
+  have hv : s'.valOf k = .ok c := by rw [hs, hk]; exact newRxn_valOf s _ c
+  have hpk' : s'.pkgOf k = s.pkgOf a := by
+    rw [hs, hk]; simp only [Store.newRxn, Store.pkgOf, List.getElem?_concat_length]; rfl
+  have hmw' : s'.mwOf (s'.pkgOf k) = s.mwOf (s.pkgOf a) := by
+    rw [hpk', hs]; rfl
+  refine ⟨_, _, _, applyStr_of_valOf s' k c n hv, applyStr_of_valOf s a _ n (valOf_of_rxn? hra),
+    applyStr_of_valOf s b _ n (valOf_of_rxn? hrb), ?_⟩
+  rw [hmw', ← hpk]
+  exact add_is_parallel_on_streams _ (s.val ra) (s.val rb) c n hph hla hlb hmw hlm ha hb hx hc
 
 /-! ## `ParallelReaction.reduce` -/
 
@@ -623,6 +792,8 @@ theorem reduce_step_acts (s s' : Store α) (hwf : s.WF) (sid k : Nat) (order : L
     s'.applyArr k n = s.applyArr sid n := by
   simp only [Store.step, Store.pureOp, Store.reduceOp, ht] at h
   split at h; · simp at h
+  rename_i hser
+  split at h; · simp at h
   rename_i hguard
   split at h; · simp at h
   rename_i vs hvs
@@ -632,7 +803,8 @@ theorem reduce_step_acts (s s' : Store α) (hwf : s.WF) (sid k : Nat) (order : L
   obtain ⟨⟨_, hcov⟩, hnd⟩ := hguard
   obtain ⟨_, _, _, hrl⟩ := set_wf_of_ok hwf ht
   have hsid := set?_ok ht
-  simp only [Store.applyArr, List.getElem?_concat_length, hsid]
+  have hser' : t.series = false := by simpa using hser
+  simp only [Store.applyArr, List.getElem?_concat_length, hsid, setAct, hser', Bool.false_eq_true, if_false]
   congr 1
   have hms : ∀ a ∈ s.setVals t, a.v.getD a.ridx 0 = -1 ∧ a.v.length = n.length ∧ a.basis = t.basis ∧ a.ph = t.ph := by
     intro a ha
@@ -646,7 +818,7 @@ theorem reduce_step_acts (s s' : Store α) (hwf : s.WF) (sid k : Nat) (order : L
     obtain ⟨i, hi, rfl⟩ := ha
     have hir : i < t.ridxs.length := hrl ▸ hi
     exact hcov _ (by simp only; rw [getD_of_lt' _ _ _ hir]; exact List.getElem_mem hir)
-  have key := reduce_acts_like_set s.mw (s.setVals t) vs order n t.basis t.ph hms hnd hcov' hvs
+  have key := reduce_acts_like_set _ (s.setVals t) vs order n t.basis t.ph hms hnd hcov' hvs
   simp only [triples] at key
   rw [← key]
   congr 1
@@ -656,6 +828,286 @@ theorem reduce_step_acts (s s' : Store α) (hwf : s.WF) (sid k : Nat) (order : L
   · intro j h1 h2
     have hj : j < vs.length := by simpa using h2
     simp [Store.arr, List.getD, hj, List.getElem?_append_right]
+
+/-! ## Copies and slices of reaction sets, series sets -/
+
+/-- reading back a set whose rows and X array were just allocated from a list of values -/
+theorem fresh_set_triples (s : Store α) (vs : List (RVal α)) (t' : RSet) (s' : Store α)
+    (hrows : t'.rows = (List.range vs.length).map (· + s.arrs.length)) (hxa : t'.xa = s.xarrs.length)
+    (hoff : t'.xoff = 0) (hri : t'.ridxs = vs.map (·.ridx))
+    (harr : s'.arrs = s.arrs ++ vs.map (·.v)) (hx : s'.xarrs = s.xarrs ++ [vs.map (·.x)]) :
+    (s'.setVals t').map (fun a => (a.v, a.ridx, a.x)) = vs.map (fun a => (a.v, a.ridx, a.x)) := by
+  simp only [Store.setVals, List.map_map, hrows, hxa, hoff, hri, harr, hx, List.length_map, List.length_range,
+    Nat.zero_add]
+  apply List.ext_getElem
+  · simp
+  · intro j h1 h2
+    have hj : j < vs.length := by simpa using h2
+    simp [Store.arr, List.getD, hj, harr, List.getElem?_append_right]
+
+/-- **setCopy_acts_like_original** (`_partial`: the copy keeps the basis).  `set.copy()` — or `copy(basis)` with the
+set's own basis — returns a set that does to every array and every stream what the original does (parallel or
+series alike).  (That it is a new object with its own row arrays and X array is `fresh_result`; that the original
+is untouched is `operands_unchanged`.) -/
+theorem setCopy_acts_like_original (s s' : Store α) (sid k : Nat) (b : BArg) (t : RSet) (n : List α)
+    (ht : s.set? sid = .ok t) (hb : copyTarget t.basis b = .ok none)
+    (h : s.step (.setCopy sid b) = .ok (s', k)) :
+    s'.applyArr k n = s.applyArr sid n ∧ s'.applyStr k n = s.applyStr sid n := by
+  simp only [Store.step, Store.pureOp, Store.setCopyOp, ht, hb] at h
+  simp only [Except.ok.injEq, Prod.mk.injEq] at h
+  obtain ⟨hs, hk⟩ := h
+  have hsid := set?_ok ht
+  have hobj : s'.objs[k]? = some (Obj.set ⟨(List.range (s.setVals t).length).map (· + s.arrs.length), s.xarrs.length,
+      (s.setVals t).map (·.ridx), t.basis, t.ph, 0, t.series, t.pkg⟩) := by
+    rw [← hs, ← hk]; simp
+  have key := fresh_set_triples s (s.setVals t)
+    ⟨(List.range (s.setVals t).length).map (· + s.arrs.length), s.xarrs.length,
+      (s.setVals t).map (·.ridx), t.basis, t.ph, 0, t.series, t.pkg⟩ s' rfl rfl rfl rfl (by rw [← hs]) (by rw [← hs])
+  have hmw : s'.mwOf t.pkg = s.mwOf t.pkg := by rw [← hs]; simp [Store.mwOf]
+  constructor
+  · simp only [Store.applyArr, hobj, hsid, key]
+  · simp only [Store.applyStr, hobj, hsid, key, hmw]
+
+/-- one row of `set.copy(basis)` with another basis is exactly what `Reaction.copy(basis)` gives for that member
+(normalised on its reactant, molecular weight of the reactant nonzero); by `rebase_agrees_on_streams` it therefore
+acts on every stream like the member -/
+theorem setCopy_rebased_member (mw : List α) (a : RVal α) (tgt : Basis) (v' : List α)
+    (ha : a.v.getD a.ridx 0 = -1) (hne : a.basis ≠ tgt) (hl : a.v.length = (mwFlat mw a.ph).length)
+    (hm : (mwFlat mw a.ph).getD a.ridx 0 ≠ 0)
+    (h : rescaleRow (match tgt with
+                      | .wt => List.zipWith (· * ·) a.v (mwFlat mw a.ph)
+                      | .mol => List.zipWith (· / ·) a.v (mwFlat mw a.ph)) a.ridx = .ok v') :
+    a.copyB mw (BArg.ofBasis tgt) = .ok { a with v := v', basis := tgt } := by
+  cases tgt with
+  | mol =>
+    have hw : (List.zipWith (· / ·) a.v (mwFlat mw a.ph)).getD a.ridx 0 ≠ 0 := by
+      rw [zipWith_getD _ (by simp) _ _ hl, ha]
+      exact div_ne_zero (by simp) hm
+    have hz := allZero_false_of_getD_ne _ _ hw
+    simp only [rescaleRow, hz, Bool.false_eq_true, if_false, neg_eq_zero, hw] at h
+    have := Except.ok.inj h; subst this
+    simp only [RVal.copyB, BArg.ofBasis, hne, if_false, rebaseV, rescale_def, neg_eq_zero, hw]
+  | wt =>
+    have hw : (List.zipWith (· * ·) a.v (mwFlat mw a.ph)).getD a.ridx 0 ≠ 0 := by
+      rw [zipWith_getD _ (by simp) _ _ hl, ha]; simpa using hm
+    have hz := allZero_false_of_getD_ne _ _ hw
+    simp only [rescaleRow, hz, Bool.false_eq_true, if_false, neg_eq_zero, hw] at h
+    have := Except.ok.inj h; subst this
+    simp only [RVal.copyB, BArg.ofBasis, hne, if_false, rebaseV, rescale_def, neg_eq_zero, hw]
+
+/-- The full clause for `copy(basis)` with another basis, kept as a statement: the re-based copy acts on every
+stream like the original set.  Proved member by member (`setCopy_rebased_member` + `rebase_agrees_on_streams`); the
+composition over the members of a parallel/series set under the mass-flow conversion is not proved. -/
+def setCopy_rebased_acts_statement (α : Type) [Field α] [LinearOrder α] : Prop :=
+  ∀ (s s' : Store α) (sid k : Nat) (b : BArg) (t : RSet) (n : List α),
+    s.WF → s.set? sid = .ok t →
+    (∀ a ∈ s.setVals t, a.v.getD a.ridx 0 = -1 ∧ a.v.length = n.length) →
+    (∀ m ∈ mwFlat (s.mwOf t.pkg) t.ph, m ≠ 0) → (mwFlat (s.mwOf t.pkg) t.ph).length = n.length →
+    s.step (.setCopy sid b) = .ok (s', k) → s'.applyStr k n = s.applyStr sid n
+
+/-- `set[i:j]` is a new object over the same row arrays and the same X array: cell `m` of the slice is cell
+`i + m` of the set it was cut from (so by `set_write_seen_by_sets` / `item_write_seen_by_set` a conversion written
+through either, or through an item of either, is read by the other). -/
+theorem slice_refers_to_parent (s s' : Store α) (sid i j k : Nat) (t : RSet) (ht : s.set? sid = .ok t)
+    (hi : i ≤ t.rows.length) (h : s.step (.slice sid i j) = .ok (s', k)) :
+    k = s.objs.length ∧ s'.arrs = s.arrs ∧ s'.xarrs = s.xarrs ∧ s'.set? sid = .ok t ∧
+    ∃ t', s'.set? k = .ok t' ∧ t'.xa = t.xa ∧ t'.rows = (t.rows.take j).drop i ∧ t'.series = t.series ∧
+      ∀ m, t'.xoff + m = t.xoff + (i + m) := by
+  simp only [Store.step, Store.pureOp, Store.sliceOp, ht] at h
+  simp only [Except.ok.injEq, Prod.mk.injEq] at h
+  obtain ⟨hs, hk⟩ := h
+  have hsid := set?_ok ht
+  have hlt := (List.getElem?_eq_some_iff.mp hsid).1
+  refine ⟨hk.symm, by rw [← hs], by rw [← hs], ?_, ?_⟩
+  · rw [← hs]; simp [Store.set?, List.getElem?_append_left hlt, hsid]
+  · refine ⟨⟨(t.rows.take j).drop i, t.xa, (t.ridxs.take j).drop i, t.basis, t.ph, t.xoff + min i t.rows.length,
+      t.series, t.pkg⟩, ?_, rfl, rfl, rfl, fun m => ?_⟩
+    · rw [← hs, ← hk]; simp [Store.set?]
+    · simp only [Nat.min_eq_left hi]; omega
+
+/-- calling a `SeriesReaction` is the left fold of its members over the running material; calling a
+`ParallelReaction` takes every extent from the feed -/
+theorem set_apply_def (s : Store α) (sid : Nat) (t : RSet) (n : List α) (ht : s.set? sid = .ok t) :
+    s.applyArr sid n = .ok (if t.series
+      then ((s.setVals t).map fun a => (a.v, a.ridx, a.x)).foldl (fun acc q => react q.1 q.2.1 q.2.2 acc) n
+      else parallel ((s.setVals t).map fun a => (a.v, a.ridx, a.x)) n) := by
+  simp [Store.applyArr, set?_ok ht, setAct, series]
+
+/-! ## `reset_chemicals`: re-indexing a reaction onto another property package -/
+
+/-- **reset_preserves_action** (value level).  `σ` sends a flattened index of the old package to the new one,
+`τ` back; they are partial inverses of each other (true of two packages without repeated chemicals).  If
+`reset_chemicals` succeeds, then for a stream over the NEW package: re-indexing its flows onto the old package,
+reacting with the old reaction and re-indexing back (what calling the reaction did before) gives exactly what the
+re-indexed reaction gives directly (what it does afterwards). -/
+theorem reset_preserves_action (σ τ : Nat → Option Nat) (hinv : ∀ j k, σ j = some k ↔ τ k = some j)
+    (a r' : RVal α) (lenB : Nat) (nB m : List α)
+    (hτlt : ∀ k j, τ k = some j → j < a.v.length) (hnB : nB.length = lenB)
+    (h : a.reindex σ τ lenB = .ok r')
+    (hv : applyVia σ τ a.v.length (react a.v a.ridx a.x) nB = .ok m) :
+    m = react r'.v r'.ridx r'.x nB := by
+  unfold RVal.reindex at h
+  split at h; · exact absurd h (by simp)
+  split at h; · exact absurd h (by simp)
+  rename_i kr hkr
+  have := Except.ok.inj h; subst this
+  unfold applyVia at hv
+  split at hv; · exact absurd hv (by simp)
+  rename_i hmiss
+  split at hv; · exact absurd hv (by simp)
+  have := Except.ok.inj hv; subst this
+  have hmiss' : missing τ nB = false := by simpa using hmiss
+  have hr_lt : a.ridx < a.v.length := hτlt kr a.ridx ((hinv _ _).mp hkr)
+  have hlA : a.v.length = (gatherV σ a.v.length nB).length := by rw [gatherV_length]
+  apply ext_getD
+  · simp [gatherV_length, react, hnB]
+  · intro t
+    simp only []
+    rw [react_getD _ _ _ _ (by simp [gatherV_length, hnB]) t, gatherV_getD, gatherV_getD]
+    by_cases ht : t < nB.length
+    · simp only [ht, if_true, hnB ▸ ht]
+      cases hτ : τ t with
+      | none =>
+        simp only []
+        have hz : nB.getD t 0 = 0 := by
+          by_contra hne
+          obtain ⟨j, hj⟩ := missing_false τ nB hmiss' t hne
+          rw [hτ] at hj; exact absurd hj (by simp)
+        rw [hz]; ring
+      | some j =>
+        simp only []
+        have hσj : σ j = some t := (hinv j t).mpr hτ
+        have hj : j < a.v.length := hτlt t j hτ
+        rw [react_getD _ _ _ _ hlA j, gatherV_getD, gatherV_getD]
+        simp only [hj, hr_lt, if_true, hσj, hkr]
+    · have ht' : nB.length ≤ t := Nat.not_lt.mp ht
+      simp only [ht, if_false, hnB ▸ ht]
+      rw [getD_of_ge nB t ht']; ring
+
+/-- `reset_chemicals` there and back restores the reaction -/
+theorem reindex_roundtrip (σ τ : Nat → Option Nat) (hinv : ∀ j k, σ j = some k ↔ τ k = some j)
+    (a r' : RVal α) (lenB : Nat) (hσlt : ∀ j k, σ j = some k → k < lenB)
+    (h : a.reindex σ τ lenB = .ok r') :
+    r'.reindex τ σ a.v.length = .ok a := by
+  unfold RVal.reindex at h
+  split at h; · exact absurd h (by simp)
+  rename_i hmiss
+  split at h; · exact absurd h (by simp)
+  rename_i kr hkr
+  have := Except.ok.inj h; subst this
+  have hmiss' : missing σ a.v = false := by simpa using hmiss
+  have hback : τ kr = some a.ridx := (hinv _ _).mp hkr
+  have hnomiss : missing τ (gatherV τ lenB a.v) = false := by
+    simp only [missing, List.any_eq_false, List.mem_range, Bool.and_eq_true, decide_eq_true_eq,
+      Option.isNone_iff_eq_none, not_and, gatherV_length]
+    intro t ht hne hτ
+    rw [gatherV_getD] at hne
+    simp [ht, hτ] at hne
+  unfold RVal.reindex
+  simp only [hnomiss, Bool.false_eq_true, if_false, hback]
+  congr 1
+  apply RVal.ext <;> simp only []
+  apply ext_getD
+  · simp [gatherV_length]
+  · intro j
+    rw [gatherV_getD]
+    by_cases hj : j < a.v.length
+    · simp only [hj, if_true]
+      cases hσ : σ j with
+      | none =>
+        simp only []
+        by_contra hne
+        obtain ⟨k, hk⟩ := missing_false σ a.v hmiss' j (Ne.symm hne)
+        rw [hσ] at hk; exact absurd hk (by simp)
+      | some k =>
+        simp only []
+        rw [gatherV_getD]
+        simp [hσlt j k hσ, (hinv j k).mp hσ]
+    · simp only [hj, if_false]
+      exact (getD_of_ge a.v j (Nat.not_lt.mp hj)).symm
+
+/-- `reset_chemicals` at store level: it is an in-place operation on its own object only — no existing array is
+modified (a new one is bound), X arrays and all other objects are untouched, and the object keeps its conversion,
+basis and phases while its package becomes `p`. -/
+theorem reset_frame (s s' : Store α) (a p k : Nat) (h : s.step (.reset a p) = .ok (s', k)) :
+    k = a ∧ s.arrs <+: s'.arrs ∧ s'.xarrs = s.xarrs ∧ (∀ id, id ≠ a → s'.objs[id]? = s.objs[id]?) ∧
+    ∃ ra ra', s.rxn? a = .ok ra ∧ s'.rxn? a = .ok ra' ∧ ra'.x = ra.x ∧ ra'.basis = ra.basis ∧ ra'.ph = ra.ph ∧
+      ra'.pkg = p := by
+  simp only [Store.step, Store.pureOp, Store.resetOp] at h
+  split at h
+  · rename_i ra hra
+    have halt := (List.getElem?_eq_some_iff.mp hra).1
+    split at h; · simp at h
+    split at h
+    · rename_i hp
+      simp only [Except.ok.injEq, Prod.mk.injEq] at h
+      obtain ⟨rfl, rfl⟩ := h
+      exact ⟨rfl, List.prefix_refl _, rfl, fun _ _ => rfl, ra, ra, rxn?_of_getElem? hra, rxn?_of_getElem? hra,
+        rfl, rfl, rfl, hp⟩
+    · split at h; · simp at h
+      split at h; · simp at h
+      rename_i r hr
+      simp only [Except.ok.injEq, Prod.mk.injEq] at h
+      obtain ⟨rfl, rfl⟩ := h
+      refine ⟨rfl, List.prefix_append _ _, rfl, fun id hid => by simp [List.getElem?_set_ne (Ne.symm hid)],
+        ra, { ra with nu := s.arrs.length, ridx := r.ridx, pkg := p }, rxn?_of_getElem? hra,
+        rxn?_of_getElem? (by simp [halt]), rfl, rfl, rfl, rfl⟩
+  · simp at h
+
+/-- **reset_step_preserves_action** (`_partial`: molar basis, stream over the new package; the two index maps
+between the packages are assumed to be partial inverses of each other, which holds for packages without repeated
+chemicals — see the sample check below).  What calling the reaction on a stream of package `p` gave before
+`reset_chemicals(p)` (through re-indexing the flows there and back) is what it gives afterwards (directly). -/
+theorem reset_step_preserves_action (s s' : Store α) (a p k : Nat) (ra : Rxn α) (n m : List α)
+    (hra : s.rxn? a = .ok ra) (hne : ra.pkg ≠ p) (hmol : ra.basis = .mol)
+    (hinv : ∀ j t, flatMap (s.idsOf ra.pkg) (s.idsOf p) j = some t ↔ flatMap (s.idsOf p) (s.idsOf ra.pkg) t = some j)
+    (hτlt : ∀ t j, flatMap (s.idsOf p) (s.idsOf ra.pkg) t = some j → j < (s.val ra).v.length)
+    (hlen : (s.val ra).v.length = nrows ra.ph * (s.idsOf ra.pkg).length)
+    (hn : n.length = nrows ra.ph * (s.idsOf p).length)
+    (h : s.step (.reset a p) = .ok (s', k))
+    (hbefore : s.applyStrPkg a p n = .ok m) :
+    s'.applyStrPkg a p n = .ok m := by
+  have hobj := rxn?_ok hra
+  have halt := (List.getElem?_eq_some_iff.mp hobj).1
+  have hmol' : (s.val ra).basis = .mol := hmol
+  have happ : ∀ (mwf : List α) (f : List α → List α), applyStream mwf Basis.mol f = f := fun _ _ => by
+    funext n; rfl
+  simp only [Store.applyStrPkg, hobj, hne, if_false, hmol', happ] at hbefore
+  simp only [Store.step, Store.pureOp, Store.resetOp, hobj] at h
+  split at h; · simp at h
+  rename_i x0 hx0
+  simp only [hne, if_false] at h
+  split at h; · simp at h
+  split at h; · simp at h
+  rename_i r' hr'
+  simp only [Except.ok.injEq, Prod.mk.injEq] at h
+  obtain ⟨rfl, rfl⟩ := h
+  rw [← hlen] at hbefore
+  have key := reset_preserves_action _ _ hinv (s.val ra) r' _ n m hτlt hn hr' hbefore
+  have hfields : r'.x = (s.val ra).x ∧ r'.basis = .mol ∧ r'.ph = ra.ph := by
+    unfold RVal.reindex at hr'
+    split at hr'; · exact absurd hr' (by simp)
+    split at hr'; · exact absurd hr' (by simp)
+    have := Except.ok.inj hr'; subst this
+    exact ⟨rfl, hmol, rfl⟩
+  simp only [Store.applyStrPkg, List.getElem?_set_self halt, if_true, Store.val, Store.arr, Store.getX, hx0,
+    hmol, happ]
+  rw [key]
+  congr 1
+  have : (s.arrs ++ [r'.v]).getD s.arrs.length [] = r'.v := by simp [List.getD]
+  rw [this, hfields.1]
+  simp [Store.val, Store.getX, hx0]
+
+/-- The full clause, kept as a statement: for every basis and for streams of EITHER package, calling the
+reaction gives the same before and after `reset_chemicals`, with the inverse property of the index maps derived
+from the packages having no repeated chemical.  Proved above: the value-level core for both directions
+(`reset_preserves_action`, and through `reindex_roundtrip` the direction "stream of the old package"), and the
+store-level molar case for the new package.  Not proved: the `wt` case (needs equal molecular weights of a
+chemical in both packages) and the derivation of the inverse property from `List.Nodup`. -/
+def reset_preserves_action_statement (α : Type) [Field α] [LinearOrder α] : Prop :=
+  ∀ (s s' : Store α) (a p q k : Nat) (ra : Rxn α) (n m : List α),
+    s.WF → s.rxn? a = .ok ra → (s.idsOf ra.pkg).Nodup → (s.idsOf p).Nodup → (q = p ∨ q = ra.pkg) →
+    s.step (.reset a p) = .ok (s', k) → s.applyStrPkg a q n = .ok m → s'.applyStrPkg a q n = .ok m
 
 /-! ## Non-vacuity: concrete rational instances meet the hypotheses (evaluated by the kernel; these are
 tests of satisfiability on samples, not part of the proofs above) -/
@@ -690,7 +1142,7 @@ example :
 /-- a reachable store with two reactions, the set built from them, an item of the set, the sum, and an
 in-place sum on the item -/
 def exStore : Store ℚ := Store.run { nchem := 5, mw := [18, 46, 180, 44, 32] }
-  [.new 0 .mol 2 (1/2) [0, 2, -2, 2, -2], .new 0 .mol 2 (1/4) [1, 0, -1, 1, -1], .mkSet [0, 1], .item 2 1,
+  [.new 0 .mol 2 (1/2) [0, 2, -2, 2, -2], .new 0 .mol 2 (1/4) [1, 0, -1, 1, -1], .mkSet false [0, 1], .item 2 1,
    .add 0 (some 1), .iadd 3 (some 0), .copy 0 .wt]
 
 example : exStore.WF := reachable_wf 5 _ _
@@ -708,6 +1160,39 @@ example :
       && (match exStore.step (.reduce 2 [2]) with | .ok (_, k) => k == 6 | .error _ => false)
       && (match exStore.step (.backwards 1 (some 0) none) with | .ok (_, k) => k == 6 | .error _ => false)
       && (match exStore.step (.setX 3 (1/8)) with | .ok (_, k) => k == 3 | .error _ => false)) = true := by decide +kernel
+
+/-- sets, slices, copies, series sets and another package: a reachable store in which object 2 is a series set
+of two reactions, 3 its slice `[1:2]`, 4 an item of the slice (reading cell 1 of X array 0), 5 a `wt` copy of the
+set (own arrays: ids ≥ 2, X array 1); reaction 0 is then re-indexed onto package 1 = (chemicals 2, 0, 4, 9) -/
+def exStore2 : Store ℚ := Store.run { nchem := 5, mw := [18, 46, 180, 44, 32], alts := [⟨[2, 0, 4, 9], [180, 18, 32, 28]⟩] }
+  [.new 0 .mol 2 (1/2) [1, 0, -1, 0, -1], .new 0 .mol 2 (1/4) [1, 0, -1, 1, -1], .mkSet true [0, 1], .slice 2 1 2,
+   .item 3 0, .setCopy 2 .wt, .setX 4 (1/8)]
+
+example : exStore2.WF := reachable_wf_alts 5 _ _ _
+
+example :
+    (decide (exStore2.objs.length = 6)
+      && (match exStore2.objs[3]? with
+          | some (Obj.set t) => t.series && t.xa == 0 && t.xoff == 1 && decide (t.rows = [1])
+          | _ => false)
+      && (match exStore2.objs[4]? with
+          | some (Obj.rxn r) => (match r.x with | .shared xa i => xa == 0 && i == 1 | .own _ => false)
+          | _ => false)
+      && (match exStore2.objs[5]? with
+          | some (Obj.set t) => t.xa == 1 && decide (t.rows = [2, 3]) && decide (t.basis = .wt)
+          | _ => false)
+      -- the item write is read by the set and by its slice, not by the copy
+      && decide (cell exStore2 0 1 = 1/8) && decide (cell exStore2 1 1 = 1/4)
+      -- `reset_chemicals` to package 1: same products on a stream of package 1 before (through re-indexing) and after
+      && (match exStore2.step (.reset 0 1) with
+          | .ok (s', _) =>
+            (match exStore2.applyStrPkg 0 1 [8, 1, 4, 0], s'.applyStrPkg 0 1 [8, 1, 4, 0] with
+             | .ok m, .ok m' => decide (m = m') && decide (m = [4, 5, 0, 0])
+             | _, _ => false)
+          | .error _ => false)
+      -- reaction 1 produces chemical 3, which package 1 lacks
+      && (match exStore2.step (.reset 1 1) with | .error .undefinedChemical => true | _ => false)) = true := by
+  decide +kernel
 
 end Examples
 
